@@ -7,7 +7,7 @@ E1_NOTE = ("trusted: rustc, the reference bit-slice decoder (DESIGN.md App. A la
            "vectors), the structural assumption that readers are fixed-width and dispatch depends on DF/TC/subtype/BDS id only (probed by bit-walks)")
 
 CLAIMS = {
- "C01": dict(cat="exploration", tech="exhaustive enumeration (all byte strings of length 0..=3, 32 DF x lengths x contexts x bit-walk, the union lattice of C02-C11, all ordered pairs of a CPR report alphabet, 3-frame tracker histories x receiver/range alphabet) with every operation under catch_unwind, an allocation meter and a stall watchdog; log arguments evaluated (tracing subscriber enabling every level); receiver at the exact antipode of / at 1200 decoded positions",
+ "C01": dict(cat="exploration", tech="exhaustive enumeration (all byte strings of length 0..=3, 32 DF x lengths x contexts x bit-walk, the union lattice of C02-C11, all ordered pairs of a CPR report alphabet, 3-frame tracker histories x receiver/range alphabet) with every operation under catch_unwind, an allocation meter and a stall watchdog; log arguments evaluated (tracing subscriber enabling every level); receiver at the exact antipode of / at 1200 decoded positions; periodic tracker histories of 1500 / 3000 events and single-address histories of 70 000 (quick) / 270 000 (thorough) events",
              text="totality monitor over the union of all decoder lattices plus the complete space of short byte strings; panics, stalls and allocation above 4 KiB per decode are violations", ref="3 C01", note=E1_NOTE + "; the global-allocator meter counts bytes requested per decode on the calling thread"),
  "C02": dict(cat="exploration", tech="exhaustive enumeration of 32 DF codes x buffer lengths 0..=32 x contexts x garbage tails and of every dispatch leaf (bit-walk, field sweeps) on the real decoder vs reference acceptance predicate; exact-vs-extended differential",
              text="acceptance set, length discipline and tail-independence decided on every format code, every length and every dispatch leaf under a context alphabet; payload bits beyond the alphabet are not enumerated", ref="3 C02", note=E1_NOTE),
@@ -38,7 +38,7 @@ E2_NOTE = ("trusted: stateright 0.31 (bounded DFS with the depth in the state ke
 for _pid, _ref, _txt in [
   ("C12", "3 C12", "all histories up to depth 4 (quick) / 5 (thorough) over a 37-letter frame alphabet (2-3 addresses x payload classes, DF18 with foreign PI, eight non-ES formats): key set, Added, message counts, non-ES no-ops, record isolation checked on every reachable state; an expiry model (accounting letters x prune, one second per event) for 'the tracked set shrinks only through expiry'; a model over all 32 type codes from address 000000 and a1; the receiver at 0N 0E; 1300 simultaneous addresses"),
   ("C13", "3 C13", "all histories up to depth 4-6 (7 quick / 9 thorough on a single-aircraft sub-alphabet) of even/odd reports from a flight, range-boundary, jump-boundary (polar NL=1), garbage, second-aircraft and receiver-move letters, several receivers/ranges, 1 s and 100 s per event, polar models on the +-90 deg zone latitudes, every carrier (DF17 / DF18 x barometric / GNSS height), pairs 20 m on either side of every NL transition, longitude rounding ties: published position, clearing, distance, the pairing itself against the independent reference decoder"),
-  ("C14", "3 C14", "same state spaces plus identification/velocity letters: latest-wins attributes, details/all_position/Display views, distance-iff-position, track = superseded publications in order (periodic histories with > 1100 required entries); altitude codes incl. 0 ft; an aircraft at exactly 0N 0E"),
+  ("C14", "3 C14", "same state spaces plus identification/velocity letters: latest-wins attributes, details/all_position/Display views, distance-iff-position, track = superseded publications in order (periodic histories with > 1100 required entries); altitude codes incl. 0 ft; an aircraft at exactly 0N 0E; a velocity sub-model whose letters are exactly one derived attribute apart (vertical rate only / track only / speed only)"),
   ("C15", "3 C15", "all interleavings up to depth 6 (quick) / 9 (thorough) of frames (identification, velocity, positions, unhandled types, DF18, non-ES), waits {1 ns, 0.4T, 0.6T, T-1ns, T} and prune(T), T in {0, 1, 10} and prune(u64::MAX): exact expiry set, untouched survivors, fresh record on re-appearance"),
 ]:
     CLAIMS[_pid] = dict(cat="model_checking", engine="E2-tracker",
